@@ -168,18 +168,22 @@ func capFor(seed, en string, n int, pipe bool) int {
 	case strings.HasPrefix(en, "json("):
 		return clamp(60000/(n+1), 64, 512)
 	case en == "tlv.Decode+String" || en == "tlv.DecodeEncode":
-		return clamp(120000/(n+1), 96, 2048) // String() of a whole file costs time proportional to its size
+		return clamp(60000/(n+1), 64, 2048) // String() of a whole file costs time proportional to its size
 	case strings.HasPrefix(en, "mobile.Verifier.Verify/file"):
-		return 48 // 3 ms per call (passive authentication against the built-in master lists)
+		return 24 // 3 ms per call (passive authentication against the built-in master lists)
 	case strings.HasPrefix(en, "mobile."), strings.HasPrefix(en, "verifier.Verify["), strings.Contains(en, "/docex"), strings.Contains(en, "/rawdoc"):
 		return 160
 	case strings.HasPrefix(en, "verifier.Verify/bundle"):
 		if strings.Contains(seed, "evidence=+cam+ca+aa") {
-			return 0
+			return 320
 		}
 		return 64
+	case strings.HasPrefix(en, "verifier.Verify/file:sod"), strings.HasPrefix(en, "verifier.Verify/file:cardSecurity"), strings.Contains(seed, "explicit") && pipe:
+		return 160 // the same files are swept at every position through PassiveAuth / pace.VerifyEvidence directly
 	case pipe:
 		return 320
+	case en == "document.Document.NewDG":
+		return 512 // same code as the file's own constructor, which sweeps every position
 	case strings.Contains(seed, "/SOD-") || strings.Contains(seed, "/pss/") || strings.Contains(seed, "var/SOD"):
 		return 640
 	}
